@@ -67,11 +67,21 @@ Definition check_load (c : list ovlit * list string * (list (nat * list string *
   | _, _ => false
   end.
 (* ---- trigger: the rules of a block, one after the other *)
-Definition rulelit := (bool * list string * float)%type.   (* enabled, tokens of the consequent, activation degree *)
+(* enabled, the load operations performed on the rule object in order, activation degree.
+   operation (0, tokens) = Rule.load with that consequent text; (1, _) = Rule.unload; (2, tokens) = Consequent.load alone *)
+Definition rulelit := (bool * list (nat * list string) * float)%type.
+Definition apply_op (e : engine float) (st : bool * list conclusion) (op : nat * list string) : bool * list conclusion :=
+  match fst op with
+  | 0 => (true, fst (consequent_reload e (snd op) (snd st)))
+  | 1 => (false, consequent_unload (snd st))
+  | _ => (fst st, fst (consequent_reload e (snd op) (snd st)))
+  end.
 Definition mk_rule (NF : Num float) (e : engine float) (r : rulelit) : rule float :=
-  let '(en, toks, d) := r in
-  {| r_enabled := en; r_weight := 1%float; r_antecedent := Some (EProp (VIn 0) [] (Some 0%nat));
-     r_consequent := match @load float e toks with Ok cs => cs | Err _ => [] end;
+  let '(en, ops, d) := r in
+  let st := fold_left (apply_op e) ops (false, []) in
+  {| r_enabled := en; r_weight := 1%float;
+     r_antecedent := if fst st then Some (EProp (VIn 0) [] (Some 0%nat)) else None;
+     r_consequent := snd st;
      r_degree := d; r_triggered := false |}.
 Fixpoint run_rules (NF : Num float) (impl : option tnormx) (rs : list (rule float)) (outs : list (output_var float))
          (k : nat) (acc : list bool) : (list bool * list (output_var float)) + (nat * nat) :=
@@ -267,6 +277,51 @@ def gen_cases(ctx):
             inp = gen_degree(rng)
         cases.append({"kind": "trigger", "mode": "activate", "dtype": "array" if batch else "scalar", "impl": rng.choice([None] + TNORMS), "oracle": True,
                       "family": None, "vars": vs, "rules": rules, "input": inp})
+    # (f) the life of a rule object before the trigger: loaded twice, text changed and loaded again, unloaded and loaded,
+    #     Rule.create then load, Consequent.load alone — one activated term per enabled conclusion of the LAST loaded text
+    for _ in range(ctx.n(260, 3600)):
+        vs = gen_vars(rng, False)
+        rules = []
+        oracle_ok = True
+        for _ in range(rng.randint(1, 2)):
+            cs = gen_structure(rng, vs, 0.5)
+            cs0 = gen_structure(rng, vs, 0.5)
+            t, t0 = text_of(vs, cs), text_of(vs, cs0)
+            kind = rng.randrange(10)
+            final = cs
+            if kind == 0:
+                script = [["new", t], ["load"], ["load"]]
+            elif kind == 1:
+                script = [["create", t], ["load"]]
+            elif kind == 2:
+                script = [["new", t0], ["load"], ["text", t], ["load"]]
+            elif kind == 3:
+                script = [["new", t], ["load"], ["unload"], ["load"]]
+            elif kind == 4:
+                script = [["create", t], ["cload"]]
+            elif kind == 5:
+                script = [["new", t], ["load"], ["load"], ["cload"], ["load"]]
+            elif kind == 6:
+                script = [["create", t0], ["text", t], ["load"], ["load"]]
+            elif kind == 7:  # a failed reload leaves the rule unloaded; loading the repaired text afterwards works
+                script = [["new", t], ["load"], ["text", t + " zz"], ["load"], ["text", t], ["load"]]
+            elif kind == 8:  # text changed but not loaded again: the conclusions of the old text stay in force
+                script = [["new", t0], ["load"], ["text", t]]
+                final = cs0
+            else:  # ends unloaded (RuntimeError on trigger) or with a failed load
+                script = rng.choice([[["new", t], ["load"], ["unload"]], [["new", t], ["load"], ["text", t + " and"], ["load"]], [["new", t], ["load"], ["unload"], ["cload"]]])
+                final = None
+                oracle_ok = False
+            rules.append({"enabled": rng.random() < 0.9, "cons": text_of(vs, final) if final else t, "weight": rng.choice([None, 0.5]), "degree": gen_degree(rng),
+                          "structure": final, "script": script})
+        mode = rng.choice(["direct", "direct", "activate"])
+        case = {"kind": "trigger", "mode": mode, "dtype": rng.choice(["scalar", "float"]) if mode == "direct" else "scalar", "impl": rng.choice([None] + TNORMS),
+                "oracle": oracle_ok, "family": None, "vars": vs, "rules": rules}
+        if mode == "activate":
+            case["input"] = gen_degree(rng)
+            if not oracle_ok:
+                case["oracle"] = False
+        cases.append(case)
     # (e) Consequent.load alone: crafted corner cases, then well-formed, mutated and random texts, quirky engines
     def V(name, terms, enabled=True):
         return {"name": name, "enabled": enabled, "cleared": False, "terms": terms, "old": []}
@@ -362,21 +417,52 @@ def run_load(fl, spec):
     return {"conclusions": conclusions_of(c, outs)}
 
 
+def full_text(r, cons):
+    return "if a is lo then " + cons + (f" with {r['weight']}" if r["weight"] is not None else "")
+
+
+def run_script(fl, engine, r):
+    """the life of one rule object before it is triggered; default: create the rule, parse the text, load it once.
+    Returns the rule and the load operations performed, (kind, tokens of the consequent text at that moment)."""
+    script = r.get("script") or [["new", r["cons"]], ["load"]]
+    rule = None
+    ops = []
+    for step in script:
+        try:
+            if step[0] == "new":
+                rule = fl.Rule()
+                rule.parse(full_text(r, step[1]))
+            elif step[0] == "create":  # Rule.create(text, engine) parses and loads
+                ops.append((0, step[1].split()))
+                rule = fl.Rule.create(full_text(r, step[1]), engine)
+            elif step[0] == "text":
+                rule.text = full_text(r, step[1])
+            elif step[0] == "load":
+                ops.append((0, rule.consequent.text.split()))
+                rule.load(engine)
+            elif step[0] == "cload":
+                ops.append((2, rule.consequent.text.split()))
+                rule.consequent.load(engine)
+            elif step[0] == "unload":
+                ops.append((1, []))
+                rule.unload()
+        except SyntaxError:
+            if rule is None:
+                raise
+    rule.enabled = r["enabled"]
+    return rule, ops
+
+
 def run_trigger(fl, obs, spec):
     """returns the observation of one case: degrees used, fuzzy outputs, triggered flags (or the exception)"""
     engine, a, outs = build_engine(fl, spec)
     impl = getattr(fl, spec["impl"])() if spec["impl"] else None
     rules = []
-    loads = []
+    all_ops = []
     for r in spec["rules"]:
-        rule = fl.Rule(enabled=r["enabled"])
-        rule.parse("if a is lo then " + r["cons"] + (f" with {r['weight']}" if r["weight"] is not None else ""))
-        try:
-            rule.load(engine)
-            loads.append(conclusions_of(rule.consequent, outs))
-        except Exception as ex:  # noqa: BLE001
-            loads.append(type(ex).__name__)
+        rule, ops = run_script(fl, engine, r)
         rules.append(rule)
+        all_ops.append(ops)
     rb = fl.RuleBlock("rb", implication=impl, activation=fl.General(), rules=rules)
     engine.rule_blocks = [rb]
     for v, ov in zip(spec["vars"], outs):
@@ -385,7 +471,7 @@ def run_trigger(fl, obs, spec):
         if v["cleared"]:
             ov.terms.clear()
     batch = spec["dtype"] == "array"
-    out = {"loads": loads, "tokens": [r.consequent.text.split() for r in rules]}
+    out = {"ops": all_ops, "conclusions": [len(r.consequent.conclusions) for r in rules]}
     vlib.RECORDER.reset()
     err = None
     with patched_hedges(fl, obs), np.errstate(all="ignore"):
@@ -438,6 +524,10 @@ def strs(xs):
     return vlib.coq_list(vlib.coq_string(x) for x in xs)
 
 
+def ops_lit(ops):
+    return vlib.coq_list(f"({k}%nat, {strs(toks)})" for k, toks in ops)
+
+
 def load_lit(spec, obs):
     if "error" in obs:
         exp = f"inr {ERR.get(obs['error'], 4)}%nat"
@@ -453,7 +543,7 @@ def trigger_lits(spec, obs):
     idx = obs["considered"]
     impl = f"Some (TN T_{spec['impl']})" if spec["impl"] else "None"
     for j in range(obs["rows"]):
-        rules = vlib.coq_list(f"({b(spec['rules'][i]['enabled'])}, {strs(obs['tokens'][i])}, {vlib.fhex(obs['degrees'][j][i])})" for i in idx)
+        rules = vlib.coq_list(f"({b(spec['rules'][i]['enabled'])}, {ops_lit(obs['ops'][i])}, {vlib.fhex(obs['degrees'][j][i])})" for i in idx)
         if obs["error"]:
             k, cls = obs["error"]
             exp = f"inr ({k}%nat, {ERR.get(cls, 4)}%nat)"
@@ -575,7 +665,7 @@ def run(ctx, build, verdict, ev):
     load_lits, trig_lits, index = [], [], []
     families: dict[int, list] = {}
     dist = {"load_ok": 0, "load_rejected": 0, "trigger_ok": 0, "trigger_raises": 0, "rows_scalar": 0, "rows_batch": 0, "activate": 0, "hedged_conclusions": 0,
-            "multi_conclusion": 0, "disabled_rule": 0, "disabled_variable": 0, "special_degree": 0, "oracle_checked": 0, "permutation_families": 0, "oracle_entries": 0}
+            "multi_conclusion": 0, "disabled_rule": 0, "disabled_variable": 0, "special_degree": 0, "reload_scripts": 0, "oracle_checked": 0, "permutation_families": 0, "oracle_entries": 0}
     nviol = 0
     nontrivial = set()
     samples = []
@@ -598,6 +688,7 @@ def run(ctx, build, verdict, ev):
         dist["oracle_entries"] += len(o["table"])
         for r in spec["rules"]:
             dist["disabled_rule"] += not r["enabled"]
+            dist["reload_scripts"] += "script" in r
             if r["structure"]:
                 dist["multi_conclusion"] += len(r["structure"]) > 1
                 dist["hedged_conclusions"] += sum(1 for _, hs, _ in r["structure"] if hs)
